@@ -53,6 +53,15 @@ func baseConfig(s Spec, r *rand.Rand, o Opt) vnet.Config {
 		o.MinH, o.MaxH = 2, 4
 	}
 	cfg := vnet.Config{Seed: s.Seed, Profile: s.Profile}
+	if os.Getenv("VERIF_TIER") == "thorough" && o.ForceN == 0 {
+		// deeper bounds in the thorough tier: larger validator sets and longer chains in a share of the runs
+		if r.Intn(8) == 0 {
+			o.Ns = []int{13, 16}
+		}
+		if r.Intn(6) == 0 {
+			o.MaxH += 4
+		}
+	}
 	cfg.N = pickInt(r, o.Ns)
 	if o.ForceN > 0 {
 		cfg.N = o.ForceN
